@@ -440,6 +440,47 @@ def handle (line : String) : String :=
           let leaf := (goRes.splitOn ",").headD ""
           if leaf == expect then "OK" else s!"SPEC C10:wrong-json-subtype expected={expect}"
       | _, _ => "BAD args"
+    | ["lines", kind, hx, lim] =>
+      match unhex hx, parseNat lim, goRes.splitOn " " with
+      | some raw, some l, [bits, chain, earlier] =>
+        let b := bits.toList
+        let e := earlier.toList
+        let h := header raw l
+        let m := if Cust.ndjson h l then 'T' else 'F'
+        let d := if m == b.getD 0 '?' then "" else s!"DIFF det:NdJSON model={m}"
+        let leaf := ((chain.splitOn ",").headD "").splitOn "|" |>.headD ""
+        let s1 := Spec.ndjsonSpec kind raw l (b.getD 0 'F' == 'T') (leaf == bhex (ofString "application/x-ndjson")) (e.getD 0 'n' == 'y')
+        let s2 := Spec.svSpec kind "csv" raw l (b.getD 1 'F' == 'T') (leaf == bhex (ofString "text/csv")) (e.getD 1 'n' == 'y') 0x2C
+        let s3 := Spec.svSpec kind "tsv" raw l (b.getD 2 'F' == 'T') (leaf == bhex (ofString "text/tab-separated-values")) (e.getD 2 'n' == 'y') 0x09
+        let all := [d, s1, s2, s3].filter (· != "")
+        if all.isEmpty then "OK" else String.intercalate " ; " all
+      | _, _, _ => "BAD args"
+    | ["dll", hx, lim] =>
+      match unhex hx, parseNat lim with
+      | some raw, some l =>
+        let m := bhex (Cust.dropLastLine raw l)
+        if m == goRes then "OK" else s!"DIFF dropLastLine model={m}"
+      | _, _ => "BAD args"
+    | ["decl", kind, lh, hx, _lim] =>
+      match unhex lh, unhex hx with
+      | some label, some doc =>
+        -- expected: the declared label in lower case (utf-16* in an HTML meta => utf-8);
+        -- a byte-order mark wins over an HTML meta declaration
+        let low := Charset.lowerASCII label
+        let isHtml := kind != "xml"
+        let bom := Charset.fromBOM doc
+        let want : Bytes :=
+          if isHtml && bom != [] then bom
+          else if isHtml && hasPrefix low Charset.kUtf16 then Charset.csUtf8 else low
+        let mime := if isHtml then mimeTextHtml else mimeTextXml
+        let expectStr := bhex (MT.withCharset mime want)
+        let got := ((goRes.splitOn "/").getLast?).getD ""
+        -- the clause is about results of type text/html (text/xml): a document the library
+        -- does not recognise as HTML at all is outside it
+        let gotB := (unhex got).getD []
+        if !(hasPrefix gotB mime) then "SKIP not-reported-as-html-or-xml" else
+        if got == expectStr then "OK" else s!"SPEC C12:declared-charset-not-reported expected={expectStr}"
+      | _, _ => "BAD args"
     | ["treeeq"] =>
       let m := String.intercalate " " (dumpTree Gen.builtin)
       if m == goRes then "OK" else s!"DIFF tree model={m}"
